@@ -568,7 +568,7 @@ func c06RoleCertStage(t *testing.T, p *c06Prober, cfg c06Config, mat *c06Materia
 		res.sample(certs[len(certs)-1].describe())
 	}
 	var sb strings.Builder
-	sb.WriteString("From KM Require Import Model.AuthGateRole.\n")
+	sb.WriteString("From KM Require Import Model.AuthGateRole Model.RoleCases.\n")
 	sb.WriteString(strings.Join(defs, "\n") + "\n")
 	for i := 0; i < len(cases); i += 1500 {
 		j := i + 1500
